@@ -13,11 +13,29 @@ class ReplayDivergence(common.HarnessError):
     pass
 
 
+class Pruned(BaseException):
+    """Raised by a driver when the execution reached, beyond its prefix, a
+    state that was already visited with at least the same remaining budgets:
+    every continuation is (being) explored from that earlier visit."""
+
+
 class Chooser:
 
-    def __init__(self, prefix=()):
+    def __init__(self, prefix=(), budgets=None):
         self.prefix = list(prefix)
         self.log = []  # [tag, n, choice, default, kind]
+        self.budgets = budgets
+
+    def beyond_prefix(self):
+        return len(self.log) >= len(self.prefix)
+
+    def remaining(self):
+        """Remaining deviation budget per kind (None if unknown)."""
+        if self.budgets is None:
+            return None
+        used = self.deviations()
+        return tuple(sorted((k, b - used.get(k, 0))
+                            for k, b in self.budgets.items()))
 
     def choose(self, tag, n, default=0, kind='sched'):
         if n <= 0:
@@ -75,9 +93,15 @@ def children(ch, budgets):
     return out
 
 
+PRUNED = object()
+stats = {}
+
+
 def explore(run, budgets, on_exec, max_execs=None, roots=None):
     """Depth-first enumeration.  ``on_exec(ch, outcome)`` is called for every
-    execution.  Returns (#executions, capped?)."""
+    complete execution (not for executions cut short by state pruning, whose
+    continuations are covered by an earlier visit of the same state).
+    Returns (#executions, capped?)."""
     stack = [list(r) for r in (roots if roots is not None else [[]])]
     stack.reverse()
     n = 0
@@ -85,10 +109,16 @@ def explore(run, budgets, on_exec, max_execs=None, roots=None):
         if max_execs is not None and n >= max_execs:
             return n, True
         prefix = stack.pop()
-        ch = Chooser(prefix)
-        out = run(ch)
+        ch = Chooser(prefix, budgets)
+        try:
+            out = run(ch)
+        except Pruned:
+            out = PRUNED
         n += 1
-        on_exec(ch, out)
+        if out is not PRUNED:
+            on_exec(ch, out)
+        else:
+            stats['pruned'] = stats.get('pruned', 0) + 1
         kids = children(ch, budgets)
         kids.reverse()
         stack.extend(kids)
@@ -103,10 +133,16 @@ def frontier(run, budgets, on_exec, want=64):
     n = 0
     while open_ and len(open_) < want:
         prefix = open_.pop(0)
-        ch = Chooser(prefix)
-        out = run(ch)
+        ch = Chooser(prefix, budgets)
+        try:
+            out = run(ch)
+        except Pruned:
+            out = PRUNED
         n += 1
-        on_exec(ch, out)
+        if out is not PRUNED:
+            on_exec(ch, out)
+        else:
+            stats['pruned'] = stats.get('pruned', 0) + 1
         open_.extend(children(ch, budgets))
     return open_, n
 
